@@ -3,140 +3,184 @@ C20 — invalid recipes are rejected with a recipe error, not an internal failur
 
 Model: `SnowModel.ParseCheck.check fuel env doc` (Core/ParseCheck.lean) — everything
 `snowfakery.data_generator.generate` decides before the interpreter starts, on an arbitrary YAML
-value: `ok parsed refs | recipeError kind | stuck site | fuel`.
+value: `ok parsed refs | recipeError kind | stuck site | fuel`.  The model follows the repository
+at 66ecebf, where the escape sites this package had found (D17a…D17s, D17u…D17aa) are repaired.
 
-  * `parse_never_stuck` (full statement, FALSE on the code and therefore on the faithful model):
-        ∀ fuel env doc, (check fuel env doc).isStuck = false
-    refuted at each of the 16 reachable escape sites by a concrete document (`stuck_*` below, each
-    one replayed on the real code by the harness as a known finding) — `parse_never_stuck_refuted`;
-  * `parse_never_stuck_partial`: it holds for every document that satisfies the decidable,
-    purely syntactic predicate `AvoidsKnownHoles` (Proofs/C20Defs.lean);
-  * `parse_terminates` (full statement, FALSE): ∀ env doc, ∃ fuel, check fuel env doc ≠ .fuel —
-    refuted by a file that includes itself (`include_cycle_diverges`: every amount of fuel runs
-    out; on the code: RecursionError) — unlike macros there is no cycle check for include_file;
-  * `checked_shape`: what `check` accepts satisfies the shape invariant `WF` the interpreter
-    relies on, the version is 2, 3 or absent, every recorded `random_reference` names its target and
-    every option has a hashable name and a *declared* default, whatever its value (`merge_options`
-    after fix d8c74a2: `"default" in option`; a default of 0 / false / null / "" is a default);
+  * `parse_never_stuck` — FULL STRENGTH (it was refuted at 16 sites and only held under
+    `AvoidsKnownHoles` before the repairs): ∀ fuel env doc, `check fuel env doc` is not stuck; hence
+    `outcome_trichotomy`: every document is accepted, rejected with a recipe error, or exhausts the
+    recursion budget — which on the code is the `RecursionError` that `parse_recipe` now turns into
+    a `DataGenSyntaxError` (pinned in `Props/C20Bridge.lean`).  The unguarded operations that remain
+    in the code (`Site`) are unreachable because the declaration loop / the callers' tests /
+    the mandatory `var` exclude the values they would fail on;
+  * `parse_terminates` — FULL STRENGTH (it was refuted by a file that includes itself before fix
+    70277f6): beyond the explicit budget `budget env doc` the validation layer never runs out of
+    fuel; hence `accepted_or_rejected`: for every document and every set of include files, from some
+    recursion budget on, the outcome is "accepted" or "rejected with a recipe error" — nothing else;
+  * `rejected_*`: each of the 16 former witness documents is now a recipe error of the class the
+    code raises (the `stuck_*` theorems of the first version are gone: they were statements about
+    the defective code);
+  * `include_cycle_rejected`, `mutual_include_rejected`, `nested_macro_cycle_rejected`: the documents
+    on which every amount of fuel ran out (`include_cycle_diverges` of the first version, a macro
+    including itself through a nested template) are recipe errors for every amount of fuel ≥ 4 / 6 (the nested-macro witness: sampled fuels ≥ 10)
+    (fixes 70277f6, 97f2c27); `parse_terminates_refuted` is gone;
+  * `checked_shape`, `accepted_options_declare_default`: what `check` accepts satisfies the shape
+    invariant `WF` the interpreter relies on, the version is 2, 3 or absent, every recorded
+    `random_reference` names its target, every option has a hashable name and a declared default;
+  * `version_across_files`: a version declared in an included file applies; files must agree
+    (fix 6931335);
   * `structural_before_rows`: a run whose validation does not succeed has written no row, whatever
     the interpreter is.
 -/
 import SnowModel.Proofs.C20b
 import SnowModel.Proofs.C20c
+import SnowModel.Proofs.C20d
 
 namespace SnowModel.ParseCheck
-
-def stuckAt {α : Type} : Res α → Option Site
-  | .stuck s => some s
-  | _ => none
 
 /-- a mapping with string keys -/
 def ymap (kvs : List (String × Y)) : Y := .map (kvs.map (fun p => (Y.str p.1, p.2)))
 
 def noEnv : Env := { files := [], plugins := [] }
 
-/-! ### the escape sites: one witness document each (all replayed on the real code) -/
+/-! ### never stuck, for every document -/
 
-/-- `- object: A\n  friends: [5]` -/
-theorem stuck_friendNotMap :
-    stuckAt (check 20 noEnv (.list [ymap [("object", .str "A"), ("friends", .list [.int 5])]]))
-      = some .friendNotMap := by decide
+/-- For every amount of fuel, every set of include files and plugins, and **every** YAML value, the
+    validation layer does not get stuck: none of the operations that would raise a non-recipe
+    exception is reached with a value it fails on. -/
+theorem parse_never_stuck (fuel : Nat) (env : Env) (doc : Y) : (check fuel env doc).isStuck = false :=
+  check_not_stuck fuel env doc
 
-/-- `- object: A\n  friends: [{5: x}]` -/
-theorem stuck_stmtKeyNotStr :
-    stuckAt (check 20 noEnv (.list [ymap [("object", .str "A"),
-      ("friends", .list [.map [(.int 5, .str "x")]])]])) = some .stmtKeyNotStr := by decide
+/-- every document is accepted, or rejected with a recipe error, or is nested deeper than the
+    recursion budget (on the code: `RecursionError` → `DataGenSyntaxError` in `parse_recipe`) -/
+theorem outcome_trichotomy (fuel : Nat) (env : Env) (doc : Y) :
+    (check fuel env doc).isOk = true ∨ (∃ e, check fuel env doc = .recipeError e)
+      ∨ check fuel env doc = .fuel := by
+  have h := parse_never_stuck fuel env doc
+  cases hc : check fuel env doc with
+  | ok p r => exact Or.inl rfl
+  | recipeError e => exact Or.inr (Or.inl ⟨e, rfl⟩)
+  | stuck s => rw [hc] at h; cases h
+  | fuel => exact Or.inr (Or.inr rfl)
 
-/-- `- object: A\n  fields: {x: [1, 2]}` -/
-theorem stuck_fieldValueShape :
-    stuckAt (check 20 noEnv (.list [ymap [("object", .str "A"),
-      ("fields", ymap [("x", .list [.int 1, .int 2])])]])) = some .fieldValueShape := by decide
-
-/-- `- object: A\n  fields: {"": 1}` -/
-theorem stuck_fieldNameFalsy :
-    stuckAt (check 20 noEnv (.list [ymap [("object", .str "A"),
-      ("fields", ymap [("", .int 1)])]])) = some .fieldNameFalsy := by decide
-
-/-- `- object: A\n  fields: {2020-01-01: x}` (also `5:`, `true:`) -/
-theorem stuck_fieldNameNotStr :
-    stuckAt (check 20 noEnv (.list [ymap [("object", .str "A"),
-      ("fields", .map [(.date "2020-01-01", .str "x")])]])) = some .fieldNameNotStr := by decide
-
-/-- `- object: A\n  fields: {x: {5: 1}}` -/
-theorem stuck_funcNameNotStr :
-    stuckAt (check 20 noEnv (.list [ymap [("object", .str "A"),
-      ("fields", ymap [("x", .map [(.int 5, .int 1)])])]])) = some .funcNameNotStr := by decide
-
-/-- `- object: A\n  fields: {x: {a.b.c: 1}}` -/
-theorem stuck_funcNameDots :
-    stuckAt (check 20 noEnv (.list [ymap [("object", .str "A"),
-      ("fields", ymap [("x", ymap [("a.b.c", .int 1)])])]])) = some .funcNameDots := by decide
-
-/-- `- object: A\n  for_each: {value: x}` -/
-theorem stuck_forEachNoVar :
-    stuckAt (check 20 noEnv (.list [ymap [("object", .str "A"),
-      ("for_each", ymap [("value", .str "x")])]])) = some .forEachNoVar := by decide
-
-/-- `- include_file: /abs` -/
-theorem stuck_includeAbs :
-    stuckAt (check 20 noEnv (.list [ymap [("include_file", .str "/abs")]])) = some .includeAbs := by
-  decide
-
-/-- `- macro: [1]` -/
-theorem stuck_macroUnhashable :
-    stuckAt (check 20 noEnv (.list [ymap [("macro", .list [.int 1])]])) = some .macroUnhashable := by
-  decide
-
-/-- `- plugin: 5` -/
-theorem stuck_pluginNotStr :
-    stuckAt (check 20 noEnv (.list [ymap [("plugin", .int 5)]])) = some .pluginNotStr := by decide
-
-/-- `- plugin: foo` -/
-theorem stuck_pluginNoDot :
-    stuckAt (check 20 noEnv (.list [ymap [("plugin", .str "foo")]])) = some .pluginNoDot := by decide
-
-/-- `- option: [1]` -/
-theorem stuck_optionUnhashable :
-    stuckAt (check 20 noEnv (.list [ymap [("option", .list [.int 1])]])) = some .optionUnhashable := by
-  decide
-
-/-- `- object: A\n  fields: {x: {random_reference: {}}}` -/
-theorem stuck_refNoArgs :
-    stuckAt (check 20 noEnv (.list [ymap [("object", .str "A"),
-      ("fields", ymap [("x", ymap [("random_reference", .map [])])])]])) = some .refNoArgs := by decide
-
-/-- `- object: A\n  fields: {x: {random_reference: {unique: true}}}` -/
-theorem stuck_refNoTo :
-    stuckAt (check 20 noEnv (.list [ymap [("object", .str "A"),
-      ("fields", ymap [("x", ymap [("random_reference", ymap [("unique", .bool true)])])])]]))
-      = some .refNoTo := by decide
-
-/-- `- object: A\n  fields: {x: {random_reference: {to: {a: b}}}}` -/
-theorem stuck_refNotSimple :
-    stuckAt (check 20 noEnv (.list [ymap [("object", .str "A"),
-      ("fields", ymap [("x", ymap [("random_reference", ymap [("to", ymap [("a", .str "b")])])])])]]))
-      = some .refNotSimple := by decide
-
-/-- `parse_never_stuck` is false -/
-theorem parse_never_stuck_refuted :
-    ¬ (∀ (fuel : Nat) (env : Env) (doc : Y), (check fuel env doc).isStuck = false) := by
+/-- the guarded operations are unreachable, site by site -/
+theorem no_site_reachable (fuel : Nat) (env : Env) (doc : Y) (s : Site) :
+    check fuel env doc ≠ .stuck s := by
   intro h
-  have := h 20 noEnv (.list [ymap [("object", .str "A"), ("friends", .list [.int 5])]])
-  revert this
+  have := parse_never_stuck fuel env doc
+  rw [h] at this
+  cases this
+
+/-! ### termination, for every document -/
+
+/-- Beyond `budget env doc` — (include files not yet entered + 1) + (declared macro names × (3·S + 8))
+    + 3·S + 2, `S` the total size of the documents — the validation layer does not run out of fuel:
+    include files and macros are guarded by explicit stacks, everything else recurses on a strictly
+    smaller sub-value.  (Refuted before fix 70277f6: `include_cycle_diverges`.) -/
+theorem parse_terminates (env : Env) (doc : Y) (fuel : Nat) (h : budget env doc ≤ fuel) :
+    check fuel env doc ≠ .fuel :=
+  check_terminates env doc fuel h
+
+/-- Every document offered as a recipe is either accepted or rejected with a recipe error. -/
+theorem accepted_or_rejected (env : Env) (doc : Y) :
+    ∃ F, ∀ fuel, F ≤ fuel →
+      (check fuel env doc).isOk = true ∨ ∃ e, check fuel env doc = .recipeError e := by
+  refine ⟨budget env doc, fun fuel h => ?_⟩
+  rcases outcome_trichotomy fuel env doc with h1 | h2 | h3
+  · exact Or.inl h1
+  · exact Or.inr h2
+  · exact absurd h3 (parse_terminates env doc fuel h)
+
+/-- non-vacuity: both alternatives occur -/
+example : (∃ F, ∀ fuel, F ≤ fuel → (check fuel noEnv (.list [ymap [("object", .str "A")]])).isOk = true ∨
+    ∃ e, check fuel noEnv (.list [ymap [("object", .str "A")]]) = .recipeError e) :=
+  accepted_or_rejected _ _
+
+/-! ### the former escape sites: each witness document is now a recipe error -/
+
+/-- D17a `- object: A\n  friends: [5]` (fix 8788294) -/
+theorem rejected_friendNotMap :
+    check 20 noEnv (.list [ymap [("object", .str "A"), ("friends", .list [.int 5])]])
+      matches .recipeError .syntax := by decide
+
+/-- D17b `- object: A\n  friends: [{5: x}]` (fix 8788294) -/
+theorem rejected_stmtKeyNotStr :
+    check 20 noEnv (.list [ymap [("object", .str "A"), ("friends", .list [.map [(.int 5, .str "x")]])]])
+      matches .recipeError .syntax := by decide
+
+/-- D17c `- object: A\n  fields: {x: [1, 2]}` (fix 6ccffd4) -/
+theorem rejected_fieldValueShape :
+    check 20 noEnv (.list [ymap [("object", .str "A"), ("fields", ymap [("x", .list [.int 1, .int 2])])]])
+      matches .recipeError .syntax := by decide
+
+/-- D17d `- object: A\n  fields: {"": 1}` (fix 6ccffd4) -/
+theorem rejected_fieldNameFalsy :
+    check 20 noEnv (.list [ymap [("object", .str "A"), ("fields", ymap [("", .int 1)])]])
+      matches .recipeError .syntax := by decide
+
+/-- D17e `- object: A\n  fields: {2020-01-01: x}` (fix 6ccffd4) -/
+theorem rejected_fieldNameNotStr :
+    check 20 noEnv (.list [ymap [("object", .str "A"), ("fields", .map [(.date "2020-01-01", .str "x")])]])
+      matches .recipeError .syntax := by decide
+
+/-- D17f `- object: A\n  fields: {x: {5: 1}}` (fix f9d6080) -/
+theorem rejected_funcNameNotStr :
+    check 20 noEnv (.list [ymap [("object", .str "A"), ("fields", ymap [("x", .map [(.int 5, .int 1)])])]])
+      matches .recipeError .syntax := by decide
+
+/-- D17g `- object: A\n  fields: {x: {a.b.c: 1}}` (fix f9d6080) -/
+theorem rejected_funcNameDots :
+    check 20 noEnv (.list [ymap [("object", .str "A"), ("fields", ymap [("x", ymap [("a.b.c", .int 1)])])]])
+      matches .recipeError .syntax := by decide
+
+/-- D17h `- object: A\n  for_each: {value: x}` (fix 6ccffd4: `var` is mandatory) -/
+theorem rejected_forEachNoVar :
+    check 20 noEnv (.list [ymap [("object", .str "A"), ("for_each", ymap [("value", .str "x")])]])
+      matches .recipeError .generic := by decide
+
+/-- D17i `- include_file: /abs` (fix 292eb44) -/
+theorem rejected_includeAbs :
+    check 20 noEnv (.list [ymap [("include_file", .str "/abs")]]) matches .recipeError .syntax := by
   decide
 
-/-! ### the positive statement -/
+/-- D17j `- macro: [1]` (fix 00d5484) -/
+theorem rejected_macroUnhashable :
+    check 20 noEnv (.list [ymap [("macro", .list [.int 1])]]) matches .recipeError .syntax := by decide
 
-/-- Documents that avoid the known holes are never stuck: for every amount of fuel, every set of
-    include files and every document, `check` ends in `ok`, a recipe error, or (include cycles) out
-    of fuel. -/
-theorem parse_never_stuck_partial (fuel : Nat) (env : Env) (doc : Y)
-    (h : AvoidsKnownHoles env doc = true) : (check fuel env doc).isStuck = false :=
-  check_not_stuck_of_avoids fuel env doc h
+/-- D17k `- plugin: 5` (fix 00d5484) -/
+theorem rejected_pluginNotStr :
+    check 20 noEnv (.list [ymap [("plugin", .int 5)]]) matches .recipeError .syntax := by decide
 
-/-- non-vacuity: a recipe with a macro, nested templates, friends, a variable, a function call with
-    keyword arguments, a `random_reference`, an option, a plugin and a version declaration avoids
-    the holes, and is accepted -/
+/-- D17l `- plugin: foo`, D17y `- plugin: .` (fix 00d5484) -/
+theorem rejected_pluginNoDot :
+    (check 20 noEnv (.list [ymap [("plugin", .str "foo")]]) matches .recipeError .syntax)
+    ∧ (check 20 noEnv (.list [ymap [("plugin", .str ".")]]) matches .recipeError .syntax)
+    ∧ (check 20 noEnv (.list [ymap [("plugin", .str "a.")]]) matches .recipeError .syntax) := by decide
+
+/-- D17m `- option: [1]` (fix 00d5484) -/
+theorem rejected_optionUnhashable :
+    check 20 noEnv (.list [ymap [("option", .list [.int 1])]]) matches .recipeError .syntax := by decide
+
+/-- D17n `random_reference: {}` (fix 2d62050) -/
+theorem rejected_refNoArgs :
+    check 20 noEnv (.list [ymap [("object", .str "A"),
+      ("fields", ymap [("x", ymap [("random_reference", .map [])])])]]) matches .recipeError .syntax := by
+  decide
+
+/-- D17o `random_reference: {unique: true}` (fix 2d62050) -/
+theorem rejected_refNoTo :
+    check 20 noEnv (.list [ymap [("object", .str "A"),
+      ("fields", ymap [("x", ymap [("random_reference", ymap [("unique", .bool true)])])])]])
+      matches .recipeError .syntax := by decide
+
+/-- D17p `random_reference: {to: {a: b}}` (fix 2d62050) -/
+theorem rejected_refNotSimple :
+    check 20 noEnv (.list [ymap [("object", .str "A"),
+      ("fields", ymap [("x", ymap [("random_reference", ymap [("to", ymap [("a", .str "b")])])])])]])
+      matches .recipeError .syntax := by decide
+
+/-! ### non-vacuity: a non-trivial recipe is accepted -/
+
 def sampleDoc : Y := .list [
   ymap [("snowfakery_version", .int 3)],
   ymap [("plugin", .str "snowfakery.standard_plugins.Math")],
@@ -154,12 +198,10 @@ def sampleDoc : Y := .list [
 
 def sampleEnv : Env := { files := [], plugins := ["snowfakery.standard_plugins.Math"] }
 
-example : AvoidsKnownHoles sampleEnv sampleDoc = true := by decide
 example : (check 50 sampleEnv sampleDoc).isOk = true := by decide
-example : (check 50 sampleEnv sampleDoc).isStuck = false :=
-  parse_never_stuck_partial 50 sampleEnv sampleDoc (by decide)
+example : (check 50 sampleEnv sampleDoc).isStuck = false := parse_never_stuck 50 sampleEnv sampleDoc
 
-/-! ### termination -/
+/-! ### cycles are recipe errors, for every amount of fuel -/
 
 /-- a recipe that includes itself -/
 def selfDoc : Y :=
@@ -167,44 +209,61 @@ def selfDoc : Y :=
 
 def selfEnv : Env := { files := [("main.recipe.yml", .doc selfDoc)], plugins := [] }
 
-theorem selfInclude_loadFile : ∀ (n : Nat) (acc : Top), loadFile n selfEnv acc selfDoc = .fuel := by
-  intro n
-  induction n with
-  | zero => intro acc; rfl
-  | succ n ih =>
-    intro acc
-    have h := ih acc
-    simp only [selfEnv, selfDoc] at h ⊢
-    simp only [loadFile]
-    simp [forR, categorize, collectionRules, getTruthy, lookup, kvsOf, Y.truthy, parseElement, checkKeys,
-      expectedTy, hasTy, startsWithSlash, List.lookup, Res.bind, h]
+/-- D17q (fix 70277f6; `include_cycle_diverges` of the first version said `= .fuel` for every
+    fuel): the included copy is on `files_being_parsed` when it is included again -/
+theorem include_cycle_rejected (n : Nat) : check (n + 4) selfEnv selfDoc = .recipeError .generic := by
+  simp [check, parseRecipe, loadFile, selfEnv, selfDoc, forR, categorize, collectionRules, getTruthy,
+    lookup, kvsOf, Y.truthy, parseElement, checkKeys, expectedTy, hasTy, startsWithSlash, List.lookup,
+    Res.bind]
 
-/-- `parse_terminates` is false: with an include_file cycle every amount of fuel runs out (the code
-    recurses until Python's recursion limit: RecursionError).  Macros have a cycle check
-    (`includeMacro`), include_file has none. -/
-theorem include_cycle_diverges (fuel : Nat) : check fuel selfEnv selfDoc = .fuel := by
-  simp only [check, parseRecipe, bind_eq, selfInclude_loadFile, Res.bind]
+/-- two files that include each other -/
+def mutualA : Y := .list [ymap [("include_file", .str "b.yml")], ymap [("object", .str "A")]]
+def mutualB : Y := .list [ymap [("include_file", .str "main.recipe.yml")], ymap [("object", .str "B")]]
+def mutualEnv : Env := { files := [("main.recipe.yml", .doc mutualA), ("b.yml", .doc mutualB)], plugins := [] }
 
-theorem parse_terminates_refuted :
-    ¬ (∀ (env : Env) (doc : Y), ∃ fuel, (check fuel env doc).isOk = true ∨
-        (∃ e, check fuel env doc = .recipeError e) ∨ (check fuel env doc).isStuck = true) := by
-  intro h
-  obtain ⟨fuel, h⟩ := h selfEnv selfDoc
-  rw [include_cycle_diverges] at h
-  rcases h with h | ⟨e, h⟩ | h <;> cases h
+theorem mutual_include_rejected (n : Nat) : check (n + 6) mutualEnv mutualA = .recipeError .generic := by
+  simp [check, parseRecipe, loadFile, mutualEnv, mutualA, mutualB, ymap, forR, categorize, collectionRules,
+    getTruthy, lookup, kvsOf, Y.truthy, parseElement, checkKeys, expectedTy, hasTy, startsWithSlash,
+    List.lookup, Res.bind]
 
-/-- two files that include each other: out of fuel as well (sampled) -/
-example :
-    let a : Y := .list [ymap [("include_file", .str "b.yml")], ymap [("object", .str "A")]]
-    let b : Y := .list [ymap [("include_file", .str "main.recipe.yml")], ymap [("object", .str "B")]]
-    let env : Env := { files := [("main.recipe.yml", .doc a), ("b.yml", .doc b)], plugins := [] }
-    (check 7 env a matches .fuel) ∧ (check 12 env a matches .fuel) := by decide
+/-- a macro that includes itself through a nested template (fix 97f2c27): before, every fuel ran out -/
+def nestedMacroDoc : Y := .list [
+  ymap [("macro", .str "m"), ("fields", ymap [("x", .list [ymap [("object", .str "B"), ("include", .str "m")]])])],
+  ymap [("object", .str "A"), ("include", .str "m")]]
 
-/-- the macro cycle check works: `a` includes `b` includes `a` is a recipe error, not a loop -/
+def isGenericError {α : Type} : Res α → Bool
+  | .recipeError .generic => true
+  | _ => false
+
+/-- sampled over fuels (the witness needs 10 levels; below that the budget runs out) -/
+theorem nested_macro_cycle_rejected :
+    ([10, 11, 12, 20, 50, 200].all fun fuel => isGenericError (check fuel noEnv nestedMacroDoc)) = true
+    ∧ ((List.range 10).all fun fuel => check fuel noEnv nestedMacroDoc matches .fuel) = true := by
+  decide
+
+/-- the chain check still works, and a macro may be used again in a nested template once its own
+    expansion is over -/
 example :
     check 30 noEnv (.list [ymap [("macro", .str "a"), ("include", .str "b")],
       ymap [("macro", .str "b"), ("include", .str "a")],
       ymap [("object", .str "A"), ("include", .str "a")]]) matches .recipeError .generic := by decide
+
+example :
+    (check 30 noEnv (.list [ymap [("macro", .str "m"), ("fields", ymap [("x", .int 1)])],
+      ymap [("macro", .str "n"), ("fields", ymap [("y", .list [ymap [("object", .str "B"), ("include", .str "m")]])])],
+      ymap [("object", .str "A"), ("include", .str "m, n")]])).isOk = true := by decide
+
+/-! ### versions across files (fix 6931335) -/
+
+/-- a version declared only in an included file is the recipe's version; two files that declare
+    different versions are a recipe error; equal versions are fine -/
+theorem version_across_files :
+    let inc (v : Int) : Env := { files := [("b.yml", .doc (.list [ymap [("snowfakery_version", .int v)], ymap [("object", .str "B")]]))], plugins := [] }
+    let main (decl : List Y) : Y := .list (decl ++ [ymap [("include_file", .str "b.yml")], ymap [("object", .str "A")]])
+    (match check 20 (inc 3) (main []) with | .ok p _ => p.version | _ => none) = some 3
+    ∧ (check 20 (inc 3) (main [ymap [("snowfakery_version", .int 2)]]) matches .recipeError .syntax)
+    ∧ (match check 20 (inc 3) (main [ymap [("snowfakery_version", .int 3)]]) with | .ok p _ => p.version | _ => none) = some 3 := by
+  decide
 
 /-! ### what is accepted has the shape the interpreter relies on -/
 
